@@ -26,7 +26,13 @@ OUTSIDE = ["trees deeper than 2 levels / more than 4 outline items", "label rang
 EXCL = set()
 
 
+class WorkLimit(Exception):
+    pass
+
+
 class Doc:
+    LIMIT = 500
+
     def __init__(self):
         self.objs = {}
         self.calls = 0
@@ -35,8 +41,8 @@ class Doc:
     def getobj(self, n):
         from pdfminer.pdfexceptions import PDFObjectNotFound
         self.calls += 1
-        if self.calls > 500:
-            raise symx.Violation("unbounded work: more than 500 object look-ups")
+        if self.calls > self.LIMIT:
+            raise WorkLimit("unbounded work: more than %d object look-ups" % self.LIMIT)
         if n not in self.objs:
             raise PDFObjectNotFound(n)
         return self.objs[n]
@@ -340,6 +346,8 @@ def h5_outlines(n=4, timeout=150, part=None, **kw):
             got = [(lv, t, d) for (lv, t, d, a, se) in pdoc.get_outlines()]
         except symx.Violation:
             raise
+        except WorkLimit as e:
+            ex.require(False, "get_outlines does not terminate: %s" % e, **info)
         except RecursionError:
             ex.require(False, "get_outlines exhausts the recursion limit", **info)
         except Exception as e:
@@ -411,6 +419,7 @@ def h6_text(timeout=100, **kw):
 
 # --------------------------------------------------------------------------------------------- replay
 def replay(harness, inp):
+    Doc.LIMIT = 10 ** 5
     import pdfminer.utils as u
     import pdfminer.pdfdocument as pd
     if harness == "H3_roman":
